@@ -1624,3 +1624,42 @@ def lift_elem(arr, j):
     from pyvc.values import lift
 
     return lift(arr.fn(j))
+
+
+# =================================================================================================
+# additions after the refactoring round: divmod, slice objects, yield from
+# =================================================================================================
+
+
+@prog(I(-9, 9), I(-4, 4))
+def builtin_divmod_int(a, b):
+    q, r = divmod(a, b)
+    return q, r
+
+
+@prog(R(-4, 4), I(-3, 3), known_deviation=_FLOAT_DIV0)
+def builtin_divmod_real(x, b):
+    q, r = divmod(x, b)
+    return q, r
+
+
+@prog(I(0, 5), I(0, 5))
+def slice_object_symbolic(lo, hi):
+    xs = [10, 11, 12, 13, 14]
+    sl = slice(lo, hi)
+    return xs[sl]
+
+
+def _sub_gen(n):
+    for i in range(n):
+        yield i * i
+
+
+@prog(K(3))
+def yield_from_generator(n):
+    def outer():
+        yield -1
+        yield from _sub_gen(n)
+        yield from [7, 8]
+
+    return list(outer())
